@@ -40,7 +40,8 @@ type schedule struct {
 }
 
 type input struct {
-	Kinds     map[string]string `json:"kinds"` // key -> "s" | "p"
+	Foreign   []int             `json:"foreign"` // keys whose address a foreign socket holds during the scenario
+	Kinds     map[string]string `json:"kinds"`   // key -> "s" | "p"
 	Schedules []schedule        `json:"schedules"`
 }
 
@@ -276,10 +277,11 @@ type scenario struct {
 	cond     *sync.Cond
 	slots    map[int]*handle
 	items    []*item
-	inOp     map[int]string // thread -> current op ("" if between ops / done)
-	got      map[int]bool   // items received by some accept/read call
-	waitKey  map[int]int    // thread -> key of the handle it is waiting on in accept/read (0 = none)
-	openCnt  map[int]int    // key -> handles listened and not yet closed (driver-side estimate, only used to avoid useless waiting)
+	inOp     map[int]string    // thread -> current op ("" if between ops / done)
+	got      map[int]bool      // items received by some accept/read call
+	foreign  map[int]io.Closer // foreign sockets holding the addresses of the keys whose listen must fail
+	waitKey  map[int]int       // thread -> key of the handle it is waiting on in accept/read (0 = none)
+	openCnt  map[int]int       // key -> handles listened and not yet closed (driver-side estimate, only used to avoid useless waiting)
 	finished map[int]bool
 	lg       sync.Mutex
 }
@@ -323,13 +325,25 @@ func freePort() int {
 	return 0
 }
 
+var foreignKeys = map[int]bool{}
+
 func newScenario(tr *hx.Trace, kinds map[int]string) *scenario {
 	sc := &scenario{tr: tr, mgr: service.NewListenerManager(), kinds: kinds, addrs: map[int]string{},
 		slots: map[int]*handle{}, inOp: map[int]string{}, finished: map[int]bool{}, got: map[int]bool{}, waitKey: map[int]int{}, openCnt: map[int]int{}}
 	sc.cond = sync.NewCond(&sc.mu)
 	// keys that model the same address for tcp and udp may share a port; simply give each key its own port
+	sc.foreign = map[int]io.Closer{}
 	for k := range kinds {
 		sc.addrs[k] = fmt.Sprintf("127.0.0.1:%d", freePort())
+		if foreignKeys[k] {
+			if kinds[k] == "s" {
+				if l, err := net.Listen("tcp", sc.addrs[k]); err == nil {
+					sc.foreign[k] = l
+				}
+			} else if c, err := net.ListenPacket("udp", sc.addrs[k]); err == nil {
+				sc.foreign[k] = c
+			}
+		}
 	}
 	return sc
 }
@@ -368,7 +382,7 @@ func (sc *scenario) runThread(t int, script []op, s *sched, wg *sync.WaitGroup) 
 			} else {
 				hnd.pc, err = sc.mgr.ListenPacket(sc.addrs[o.K])
 			}
-			sc.emit(map[string]any{"ev": "ListenEnd", "t": t, "h": o.H, "k": o.K, "ok": err == nil, "err": fmt.Sprint(err)})
+			sc.emit(map[string]any{"ev": "ListenEnd", "t": t, "h": o.H, "k": o.K, "ok": err == nil, "err": fmt.Sprint(err), "foreign": sc.foreign[o.K] != nil})
 			sc.mu.Lock()
 			if err == nil {
 				hnd.filled = true
@@ -484,7 +498,9 @@ func (sc *scenario) connect(k int) {
 	msg := []byte(fmt.Sprintf("item %d\n", id))
 	// the item reaches the socket at some instant between ConnectStart and Connect
 	sc.emit(map[string]any{"ev": "ConnectStart", "item": id, "k": k})
-	if sc.kinds[k] == "s" {
+	if sc.foreign[k] != nil {
+		// the address belongs to a foreign socket, not to the manager under test: nothing is sent
+	} else if sc.kinds[k] == "s" {
 		c, err := net.DialTimeout("tcp", sc.addrs[k], time.Second)
 		if err == nil {
 			c.Write(msg)
@@ -666,7 +682,7 @@ func (sc *scenario) finish(nThreads int, wg *sync.WaitGroup, watchdog time.Durat
 				used = true
 			}
 		}
-		if !used {
+		if !used || sc.foreign[k] != nil {
 			continue
 		}
 		ok := false
@@ -721,6 +737,9 @@ func (sc *scenario) finish(nThreads int, wg *sync.WaitGroup, watchdog time.Durat
 		time.Sleep(2 * time.Millisecond)
 	}
 	sc.emit(map[string]any{"ev": "Leak", "n": n - leaksBefore, "states": states})
+	for _, c := range sc.foreign {
+		c.Close()
+	}
 	sc.emit(map[string]any{"ev": "End", "clean": true})
 }
 
@@ -867,6 +886,9 @@ func main() {
 			n, _ := strconv.Atoi(k)
 			kinds[n] = v
 		}
+		for _, k := range inp.Foreign {
+			foreignKeys[k] = true
+		}
 		if !gatesAvailable() {
 			hx.Fatal("schedule replay needs the verif gates (build with -tags verif)")
 		}
@@ -875,13 +897,17 @@ func main() {
 		}
 	case "stress":
 		rng := rand.New(rand.NewSource(*seed))
-		kinds := map[int]string{1: "s", 2: "p", 3: "s"}
+		kinds := map[int]string{1: "s", 2: "p", 3: "s", 4: "s", 5: "p"}
+		foreignKeys[4], foreignKeys[5] = true, true
 		keys := []int{1, 2, 3}
 		for r := 0; r < *rounds; r++ {
 			leaks0, _ := countLeaks()
 			sc := newScenario(tr, kinds)
 			// fewer keys => more sharing and more last-close/listen races
 			ks := keys[:1+rng.Intn(3)]
+			if rng.Intn(3) == 0 {
+				ks = append(append([]int{}, ks...), 4+rng.Intn(2)) // some listens must fail: a foreign socket holds the address
+			}
 			script := randomScript(rng, *threads, *ops, ks, 8)
 			sc.emit(map[string]any{"ev": "Sched", "id": r + 1, "dead": false, "script": script})
 			var wg sync.WaitGroup
